@@ -333,8 +333,8 @@ pub fn check_def() -> Check {
         property: "C15",
         level: "exploration",
         scenarios: vec![Box::new(Channels)],
-        cases_quick: 6_000,
-        cases_thorough: 60_000,
+        cases_quick: 16_000,
+        cases_thorough: 300_000,
         rule: "cases: seeded workloads of 1-2 channel groups x 1-3 channels x 0-3 senders (clones, mid-run re-clone) x 0-4 unique values, receivers draining or dropped after k receives; each case explored under seeded random and PCT (depth 2-5) shuttle schedules with scheduling points at every channel/gate lock and in front of every atomic. distinct = distinct (case, recorded schedule) pairs; non-trivial = at least one scheduling decision had >= 2 runnable tasks",
         assumptions: vec![
             "shuttle executes atomics sequentially consistently; weak-memory reorderings are not explored",
